@@ -21,11 +21,11 @@ import (
 // C20: the par command's exit status reflects the outcome.
 
 type c20Case struct {
-	Fmt   string   `json:"fmt"`   // p2, p1
-	Cmd   []string `json:"cmd"`   // argv template; "{PAR}" = index path as spelled for the cwd, "{F0}".."{F2}" data files, "{MISSING}" a non-existent input
-	Class string   `json:"class"` // verify, repair, create, usage, badext
-	State string   `json:"state"` // intact, deleted, shifted, unrepairable, noparity-intact, noparity-damaged, badindex, noindex
-	Cwd   string   `json:"cwd"`   // set, parent, unrelated
+	Fmt   string   `json:"fmt"`            // p2, p1
+	Cmd   []string `json:"cmd"`            // argv template; "{PAR}" = index path as spelled for the cwd, "{F0}".."{F2}" data files, "{MISSING}" a non-existent input
+	Class string   `json:"class"`          // verify, repair, create, usage, badext
+	State string   `json:"state"`          // intact, deleted, shifted, unrepairable, noparity-intact, noparity-damaged, badindex, noindex
+	Cwd   string   `json:"cwd"`            // set, parent, unrelated
 	Then  []string `json:"then,omitempty"` // further steps after Cmd on the same directory: v, va, r, rd (commands), del0 / restore (events)
 }
 
